@@ -2,8 +2,8 @@
 
    What is proved (for all event lists = all interleavings of the atomic steps of Close, of goroutine
    registration / exit and of further Close calls): the protocol each component uses to stop and await
-   its goroutines (Model/Lifecycle.v: the closing flag, the sync.Once / select / no guard around the body,
-   the registration guard, WaitGroup or channel wait), the constructors' error paths, and the tie of the
+   its goroutines (Model/Lifecycle.v: the closing flag, the sync.Once / no guard around the body, the
+   registration guard, WaitGroup or channel wait), the constructors' error paths, and the tie of the
    model's goroutine classes to the REGENERATED inventory of `go` / WaitGroup.Go sites (Gen/Goroutines.v):
    a new start site, or a site whose WaitGroup registration disappears, makes c14_inventory_covered fail.
 
@@ -14,11 +14,12 @@
    testing/synctest (harness/*/c14_test.go); Corr/Run_C14.v maps every goroutine observed alive after Close
    returned through the inventory to a class and asks the model whether Close awaits it.
 
-   Three statements are false of the code as it is and are stated as refutations with their witnesses
-   (each replayed on the real code, see props/C14.py): the keystores' select-guarded Close under a second
-   concurrent call, the refresh manager's unguarded WaitGroup registration, the constructors of the dual
-   provider and of the accelerated client.  (A fourth, the reset handshake of the resettable keystore that
-   wedged its worker so that Close never returned, has been repaired in /repo; theorem 8 is its positive form.) *)
+   History: this check found five defects, all repaired in /repo, and the model describes the repaired code:
+   the keystores' select-guarded Close (second concurrent Close returned early / double close; now sync.Once),
+   the refresh manager's unguarded WaitGroup registration (Close could panic; now registered under a lock while
+   !closed), provider/dual.New and fullrt.NewFullRT leaving things running on their error / panic paths, and the
+   reset handshake that wedged the resettable keystore.  Theorems 6 and 7 keep, as statements about the two
+   abandoned protocols, why they were not enough. *)
 From Verif.Lib Require Import GoSem.
 From Verif.Gen Require Import Goroutines.
 From Verif.Model Require Import Lifecycle.
@@ -43,8 +44,7 @@ Print Assumptions c14_classes_rooted.
 
 (* 2. Close returns only when no registered goroutine is alive — and none is registered afterwards —
    for every protocol whose registrations are guarded (lock + flag, or constructor only) and whose
-   body is not select-guarded: all components except the keystores (3b), the refresh manager and the
-   value store (2b). *)
+   body is not select-guarded ... *)
 Theorem c14_close_waits :
   forall d evs s t,
     d_guard d <> GuardNone -> d_once d <> OnceChanSelect ->
@@ -52,10 +52,19 @@ Theorem c14_close_waits :
 Proof. exact p_close_waits. Qed.
 Print Assumptions c14_close_waits.
 
-(* 2b. Without a registration guard (refresh manager: Start / Refresh; value store: StartGC) what holds is:
-   when the wait of Close's body is over, every goroutine registered before the closing flag is gone.
-   PARTIAL: goroutines registered after the flag may be alive when Close returns (c14_unguarded_refuted);
-   they run on a cancelled context and end by themselves. *)
+(* ... which is the protocol of every component except the value store: standard, dual and accelerated DHT,
+   provider manager, refresh manager, sweeping provider and its wrappers, keystore and resettable keystore —
+   for any number of threads calling Close at any time (the concurrent second Close of a keystore included). *)
+Theorem c14_close_waits_components :
+  forall c evs s t,
+    c <> CValueStore -> run (desc_of c) init evs = Some s -> closers s t = CReturned -> pre s = 0 /\ post s = 0.
+Proof. exact p_close_waits_comp. Qed.
+Print Assumptions c14_close_waits_components.
+
+(* 2b. Without a registration guard (value store: StartGC may be called at any time) what holds is: when the
+   wait of Close's body is over, every goroutine registered before the closing flag is gone.
+   PARTIAL: a sweeper started by a StartGC that comes after Close is not stopped by that Close (it is bounded
+   by the context given to StartGC); the DHT only calls StartGC from its constructor. *)
 Theorem c14_close_waits_unguarded_partial :
   forall d evs s t, run d init evs = Some s -> closers s t = CDone -> pre s = 0.
 Proof. exact body_wait_over_pre_gone. Qed.
@@ -80,6 +89,12 @@ Theorem c14_no_panic :
 Proof. exact p_no_panic. Qed.
 Print Assumptions c14_no_panic.
 
+Theorem c14_no_panic_components :
+  forall c evs s,
+    c <> CValueStore -> run (desc_of c) init evs = Some s -> panicked s = false /\ forall t, closers s t <> CPanicked.
+Proof. exact p_no_panic_comp. Qed.
+Print Assumptions c14_no_panic_components.
+
 Theorem c14_concurrent_close_returns_after_first :
   forall d evs s t,
     run d init evs = Some s -> closers s t = COnceBlocked -> once_done s = true ->
@@ -87,26 +102,10 @@ Theorem c14_concurrent_close_returns_after_first :
 Proof. exact once_blocked_returns. Qed.
 Print Assumptions c14_concurrent_close_returns_after_first.
 
-(* 3b. The keystores' select-guarded Close, used sequentially (a thread enters only while no other thread
-   is inside Close): never panics, returns only after the worker is gone, and a further Close returns. *)
-Theorem c14_close_sequential_select :
-  forall b d evs s t,
-    d_once d = OnceChanSelect -> d_guard d <> GuardNone -> run_seq b d init evs = Some s ->
-    panicked s = false /\ (closers s t = CReturned -> pre s = 0 /\ post s = 0).
-Proof. exact seq_close_waits. Qed.
-Print Assumptions c14_close_sequential_select.
-
-Theorem c14_idempotent_sequential_select :
-  forall b d evs s t0 t,
-    d_once d = OnceChanSelect -> d_guard d <> GuardNone -> run_seq b d init evs = Some s ->
-    closers s t0 = CReturned -> t < b -> none_active (closers s) b = true ->
-    exists s', run_seq b d s [ECloseEnter t; ECloseRet t] = Some s' /\ closers s' t = CReturned /\ panicked s' = false.
-Proof. exact seq_close_again. Qed.
-Print Assumptions c14_idempotent_sequential_select.
-
-(* 4. The provider's wgLk protocol: once the closing flag is set, a registration attempt registers nothing,
-   and over any continuation the number of live registered goroutines never grows; with constructor-only
-   registration there is no registration step at all once the instance exists. *)
+(* 4. The lock + flag guard (sweeping provider: wgLk / done; refresh manager: refcountLk / closed): once the
+   closing flag is set, a registration attempt registers nothing, and over any continuation the number of live
+   registered goroutines never grows; with constructor-only registration there is no registration step at all
+   once the instance exists. *)
 Theorem c14_no_add_after_close :
   forall d s, d_guard d = GuardLockFlag -> flag s = true ->
     step d s ESpawn = Some s /\
@@ -114,73 +113,60 @@ Theorem c14_no_add_after_close :
 Proof. exact p_no_add_after_close. Qed.
 Print Assumptions c14_no_add_after_close.
 
+Theorem c14_no_add_after_close_components :
+  forall c s, c = CProvider \/ c = CRtRefresh -> flag s = true ->
+    step (desc_of c) s ESpawn = Some s /\
+    forall evs s', run (desc_of c) s evs = Some s' -> flag s' = true /\ pre s' + post s' <= pre s + post s.
+Proof. exact p_no_add_provider_rtrefresh. Qed.
+Print Assumptions c14_no_add_after_close_components.
+
 Theorem c14_no_add_after_construction :
   forall d s, d_guard d = GuardCtor -> ctor_done s = true -> step d s ESpawn = None.
 Proof. exact spawn_impossible_after_ctor. Qed.
 Print Assumptions c14_no_add_after_construction.
 
-(* 5. Constructors: at every point where a constructor returns an error, everything it started before that
-   point (goroutine classes, event-bus subscriptions) is stopped by the error path, and the point does not
-   panic — for every component except the two of 5b. *)
+(* 5. Constructors, all of them: at every point where a constructor returns an error, everything it started
+   before that point (goroutine classes, event-bus subscriptions) is stopped by the error path, and no point
+   panics. *)
 Theorem c14_ctor_error_clean :
   forall c name p left,
-    In c [CDht; CDual; CProvMgr; CValueStore; CRtRefresh; CProvider; CBuffered; CKeystore; CResettable] ->
     In (name, p, left) (leftovers [] (ctor_script c)) -> p = false /\ left = [].
-Proof. exact ctor_error_clean. Qed.
+Proof. exact p_ctor_error_clean. Qed.
 Print Assumptions c14_ctor_error_clean.
 
-(* 5b. REFUTED for the code as it is: provider/dual.New returns the error of a failing provider.New without
-   closing the keystore it created, nor (for the second provider) the first provider; fullrt.NewFullRT
-   calls the nil BootstrapPeers function when no BootstrapPeers option was given, after the subscription and
-   the provider manager were created.  Replays: props/C14.py findings provider-dual-new-leak,
-   fullrt-new-nil-bootstrap-peers. *)
-Theorem c14_ctor_error_clean_refuted :
-  (exists name left, In (name, false, left) (leftovers [] (ctor_script CProvDual)) /\ left <> []) /\
-  (exists name left, In (name, true, left) (leftovers [] (ctor_script CFullRT)) /\ left <> []).
-Proof. exact p_ctor_refuted. Qed.
-Print Assumptions c14_ctor_error_clean_refuted.
-
-(* 6. REFUTED for the code as it is (keystore, resettable keystore): a second Close that arrives while the
-   first is waiting for the worker returns at once, with the worker alive; and two callers that both pass
-   the select before either closes the channel make the second close(s.close) panic (the latter needs a
-   real data race and is reported as a note only).  Replay: finding keystore-concurrent-close-returns-early. *)
-Theorem c14_close_waits_select_refuted :
-  (exists evs s, run (desc_of CKeystore) init evs = Some s /\ closers s 1 = CReturned /\ pre s = 1) /\
-  (exists evs s, run (desc_of CKeystore) init evs = Some s /\ panicked s = true).
+(* 6. Why a select on the close channel was not enough (the keystores' former Close): a second Close that
+   arrives while the first waits for the worker returns at once with the worker alive, and two callers that
+   both pass the select before either closes the channel make the second close(s.close) panic. *)
+Theorem c14_select_guard_insufficient :
+  (exists evs s, run desc_keystore_select init evs = Some s /\ closers s 1 = CReturned /\ pre s = 1) /\
+  (exists evs s, run desc_keystore_select init evs = Some s /\ panicked s = true).
 Proof. exact p_select_refuted. Qed.
-Print Assumptions c14_close_waits_select_refuted.
+Print Assumptions c14_select_guard_insufficient.
 
-(* 7. REFUTED for the code as it is (refresh manager): Refresh / Start register with the WaitGroup without
-   any ordering with Close's Wait: a registration between the wake-up of the waiter and its resumption makes
-   WaitGroup.Wait panic ("WaitGroup is reused before previous Wait has returned"), and a registration after
-   the wait is alive when Close returns.  Replay: finding rtrefresh-close-waitgroup-reuse. *)
-Theorem c14_unguarded_refuted :
-  (exists evs s, run (desc_of CRtRefresh) init evs = Some s /\ panicked s = true /\ closers s 0 = CPanicked) /\
-  (exists evs s, run (desc_of CRtRefresh) init evs = Some s /\ closers s 0 = CReturned /\ post s = 1).
+(* ... although it is correct when Close is only used sequentially. *)
+Theorem c14_close_sequential_select :
+  forall b d evs s t,
+    d_once d = OnceChanSelect -> d_guard d <> GuardNone -> run_seq b d init evs = Some s ->
+    panicked s = false /\ (closers s t = CReturned -> pre s = 0 /\ post s = 0).
+Proof. exact seq_close_waits. Qed.
+Print Assumptions c14_close_sequential_select.
+
+(* 7. Why registration must be ordered with Close (the refresh manager's former refcount.Go / Add(1)): a
+   registration between the wake-up of Close's Wait and its resumption makes WaitGroup.Wait panic, and a
+   registration after the wait is alive when Close returns. *)
+Theorem c14_unguarded_registration_insufficient :
+  (exists evs s, run desc_rtrefresh_unguarded init evs = Some s /\ panicked s = true /\ closers s 0 = CPanicked) /\
+  (exists evs s, run desc_rtrefresh_unguarded init evs = Some s /\ closers s 0 = CReturned /\ post s = 1).
 Proof. exact p_unguarded_refuted. Qed.
-Print Assumptions c14_unguarded_refuted.
+Print Assumptions c14_unguarded_registration_insufficient.
 
 (* 8. The start handshake of a reset on the resettable keystore cannot wedge Close: the caller of ResetCids
-   collects the worker's answer before it looks at its context (the repaired code; the earlier `select` on
-   ctx.Done() left the worker blocked on its unbuffered answer and Close hanging: finding
-   resettable-reset-start-abandoned, fixed in /repo): from every reachable state of the handshake there is a
-   continuation in which Close returns. *)
+   collects the worker's answer before it looks at its context: from every reachable state of the handshake
+   there is a continuation in which Close returns. *)
 Theorem c14_reset_handshake_close_returns :
   forall evs s, rk_run rk0 evs = Some s -> exists evs' s', rk_run s evs' = Some s' /\ rk_close_ret s' = true.
 Proof. exact rk_close_can_return. Qed.
 Print Assumptions c14_reset_handshake_close_returns.
-
-(* Which components fall under which theorem (computed from desc_of). *)
-Definition guarded_and_once (c : comp) : bool :=
-  match d_guard (desc_of c), d_once (desc_of c) with
-  | GuardNone, _ => false
-  | _, OnceChanSelect => false
-  | _, _ => true
-  end.
-Example c14_components :
-  filter guarded_and_once [CDht; CDual; CFullRT; CProvMgr; CValueStore; CRtRefresh; CProvider; CBuffered; CProvDual; CKeystore; CResettable]
-  = [CDht; CDual; CFullRT; CProvMgr; CProvider; CBuffered; CProvDual].
-Proof. reflexivity. Qed.
 
 (* Non-vacuity: a provider-like instance (sync.Once, lock + flag, WaitGroup) starts two workers, Close is
    called while they run, a registration attempt is rejected, a second caller blocks in Once, the workers
